@@ -156,7 +156,11 @@ Qed.
 Lemma eval_atom_meaning : forall a e, eval_atom a e = true <-> meaning_atom a e.
 Proof.
   intros [v o | v l | v l | v p] e; simpl.
-  - apply ostr_eqb_eq.
+  - unfold eq_present. destruct (get v e) as [s|].
+    + rewrite ostr_eqb_eq. split.
+      * intro H. exists s. split; [reflexivity|symmetry; exact H].
+      * intros (s' & E & H). inversion E; subst s'. symmetry. exact H.
+    + split; [discriminate|intros (s' & E & _); discriminate].
   - apply in_member.
   - rewrite <- in_member. rewrite negb_true_iff.
     destruct (match get v e with Some s => mem s l | None => false end); split; intro H;
@@ -345,13 +349,20 @@ Lemma usual_precedence_refuted : exists a b c e,
 Proof.
   exists (AEq VState (OConst (state_name Done))), (AEq (VTag [120]) (OConst [97])), (AEq (VTag [120]) (OConst [122; 122])),
          {| e_tags := [([120], [97])]; e_state := Some Done; e_name := [116] |}.
-  split; [reflexivity|left; reflexivity].
+  split; [reflexivity|left; eexists; split; reflexivity].
 Qed.
 
-(* v = w between two look-ups that are both missing is true (None == None) *)
-Lemma missing_equals_missing : forall v w e,
-  get v e = None -> get w e = None -> eval (single (AEq v (OVar w))) e = true.
-Proof. intros v w e Hv Hw. unfold eval, compile, single. cbn. rewrite Hv, Hw. reflexivity. Qed.
+(* v = w between two look-ups that are both missing was true (None == None) before fixes/C19-13: now a missing
+   left-hand side equals nothing, like the other tests *)
+Lemma missing_equals_nothing : forall v o e, get v e = None -> eval (single (AEq v o)) e = false.
+Proof. intros v o e Hv. unfold eval, compile, single. cbn. rewrite Hv. reflexivity. Qed.
+
+Lemma none_equals_none_refuted : exists v w e,
+  ~ meaning_atom (AEq v (OVar w)) e /\ ostr_eqb (get v e) (oget (OVar w) e) = true.
+Proof.
+  exists (VTag [109]), (VTag [98]), {| e_tags := []; e_state := Some Done; e_name := [116] |}.
+  split; [intros (s & E & _); discriminate|reflexivity].
+Qed.
 
 (* `if not value: return False` (before fixes/C19-11): a tag whose value is the empty string fails `x ~ ".*"` although
    the regular expression matches it *)
